@@ -8,8 +8,8 @@
 //! ## Cargo Dependency Policy
 //!
 //! The project generator uses a **strict dependency policy**: unknown `rust::` crates must specify an explicit version
-//! and features. We never fall back to `*` (wildcard).
-//! FIXME: We will address this*See RFC 013*.
+//! and features. We never fall back to `*` (wildcard): [`ProjectGenerator::add_rust_crate`] returns an
+//! [`UnknownCrateError`] for a crate without a known-good mapping. *See RFC 013*.
 //!
 //! ### Known-good crates
 //!
@@ -265,8 +265,8 @@ pub struct ProjectGenerator {
     /// Whether axum is needed (for web framework)
     needs_axum: bool,
     /// Additional Rust crate dependencies from `rust::` imports
-    /// Key: crate name, Value: optional version spec (if None, uses latest)
-    rust_crate_deps: std::collections::HashMap<String, Option<String>>,
+    /// Key: crate name, Value: version spec (the right-hand side of the dependency line)
+    rust_crate_deps: std::collections::HashMap<String, String>,
 }
 
 impl ProjectGenerator {
@@ -316,10 +316,15 @@ impl ProjectGenerator {
     }
 
     /// Add a Rust crate dependency from `import rust::crate_name`
-    /// Uses a default version mapping for common crates, otherwise uses latest
-    pub fn add_rust_crate(&mut self, crate_name: &str) {
+    ///
+    /// Uses the known-good version mapping for common crates.
+    ///
+    /// ## Errors
+    ///
+    /// Returns [`UnknownCrateError`] if the crate has no known-good mapping (strict policy: never `*`).
+    pub fn add_rust_crate(&mut self, crate_name: &str) -> Result<(), UnknownCrateError> {
         // Common crate versions (maintain a mapping of known-good versions)
-        let version = match crate_name {
+        let version: Option<String> = match crate_name {
             "serde" => Some(r#"{ version = "1.0", features = ["derive"] }"#.to_string()),
             "serde_json" => Some(r#""1.0""#.to_string()),
             "tokio" => {
@@ -341,16 +346,22 @@ impl ProjectGenerator {
             "futures" => Some(r#""0.3""#.to_string()),
             "bytes" => Some(r#""1.0""#.to_string()),
             "itertools" => Some(r#""0.12""#.to_string()),
-            // Use latest for unknown crates
+            // Unknown crates are refused (see the module docs)
             _ => None,
         };
+        let Some(version) = version else {
+            return Err(UnknownCrateError {
+                crate_name: crate_name.to_string(),
+            });
+        };
         self.rust_crate_deps.insert(crate_name.to_string(), version);
+        Ok(())
     }
 
     /// Add a Rust crate with a specific version spec
     pub fn add_rust_crate_with_version(&mut self, crate_name: &str, version_spec: &str) {
         self.rust_crate_deps
-            .insert(crate_name.to_string(), Some(version_spec.to_string()));
+            .insert(crate_name.to_string(), version_spec.to_string());
     }
 
     /// Generate the project structure (single-file mode)
@@ -636,13 +647,7 @@ path = "src/lib.rs""#
                 continue;
             }
 
-            let dep_line = if let Some(spec) = version_spec {
-                format!("{} = {}", crate_name, spec)
-            } else {
-                // Use "*" for latest version (cargo will resolve to latest compatible)
-                format!("{} = \"*\"", crate_name)
-            };
-            deps.push(dep_line);
+            deps.push(format!("{} = {}", crate_name, version_spec));
         }
 
         let dependencies = if deps.is_empty() {
